@@ -39,11 +39,38 @@ class GhostFuture:
         self.pool, self.fn, self.arg = pool, fn, arg
         self.consumed = False
 
-    def result(self):
+    def result(self, timeout=None):
         if not self.consumed:
             self.consumed = True
             self.pool.in_flight -= 1
-        return self.pool.interp.call_value(self.fn, [self.arg], {})
+        if not hasattr(self, "_outcome"):
+            try:
+                self._outcome = ("ok", self.pool.interp.call_value(self.fn, [self.arg], {}))
+            except _PyRaise as pr:
+                self._outcome = ("raise", pr)
+        if self._outcome[0] == "raise":
+            raise self._outcome[1]
+        return self._outcome[1]
+
+    def done(self):
+        """whether a task has finished is up to the scheduler.  The code under contract never asks (so its results hold for
+        every schedule); if an edit makes it ask, FOUR canonical schedules are explored per theorem run (a bounded set):
+        0 every task finishes at once, 1 no task finishes before its result is taken, 2 the oldest unconsumed task of the pool
+        is slow and all others finish at once, 3 the newest task is slow."""
+        if self.consumed:
+            return True
+        ctx = self.pool.interp.ctx
+        if "c10_schedule" not in ctx.ghost:
+            ctx.ghost["c10_schedule"] = ctx.choose(4, "schedule")
+        s = ctx.ghost["c10_schedule"]
+        pending = [f for f in self.pool.futures if not f.consumed]
+        if s == 0:
+            return True
+        if s == 1:
+            return False
+        if s == 2:
+            return not (pending and pending[0] is self)
+        return not (pending and pending[-1] is self)
 
 
 class GhostPool:
@@ -54,6 +81,7 @@ class GhostPool:
         self.in_flight = 0
         self.max_in_flight = 0
         self.submitted = []
+        self.futures = []
         interp.ctx.ghost.setdefault("pools", []).append(self)
 
     def __pyvc_enter__(self, interp):
@@ -71,7 +99,9 @@ class GhostPool:
         self.submitted.append(arg)
         self.in_flight += 1
         self.max_in_flight = max(self.max_in_flight, self.in_flight)
-        return GhostFuture(self, fn, arg)
+        fut = GhostFuture(self, fn, arg)
+        self.futures.append(fut)
+        return fut
 
 
 @_model(_cf.ThreadPoolExecutor, always=True)
@@ -317,3 +347,9 @@ def thm_align():
     # nothing matched: nothing is yielded
     prim, sec, matches, fp, fsec = _align_case((), (), True, STRUCTURES[2])
     ensures(list(fp.align(fsec, matches=[])) == [], id="align with an empty match list yields nothing")
+
+
+# these client programs only make sense on the ghost executors / queues: no concrete replay
+for _t in REG.theorems:
+    if _t.prop == P:
+        _t.no_concrete_replay = True
